@@ -28,15 +28,71 @@ class TimeStub:
         return self.now
 
 
-def frame_patches(proxy=None, extra=None):
-    """patch set for setigen.frame and the funcs modules"""
+from fractions import Fraction as _Fr
+UNIT_SCALE = {'Hz': ('f', _Fr(1)), 'kHz': ('f', _Fr(10 ** 3)), 'MHz': ('f', _Fr(10 ** 6)), 'GHz': ('f', _Fr(10 ** 9)), 'mHz': ('f', _Fr(1, 1000)),
+              's': ('t', _Fr(1)), 'ms': ('t', _Fr(1, 1000)), 'ks': ('t', _Fr(1000)),
+              'Hz / s': ('r', _Fr(1)), 'kHz / s': ('r', _Fr(1000)), 'mHz / s': ('r', _Fr(1, 1000)), 'MHz / s': ('r', _Fr(10 ** 6)), 'Hz / ms': ('r', _Fr(1000)),
+              'pix': ('p', _Fr(1))}          # exact decimal factors (the binary64 rounding of astropy's factors is outside the claim)
+
+
+class SQ:
+    """symbolic stand-in for an astropy Quantity: a term and a unit name; converts within one dimension, keeps the
+    unit through multiplication / division by plain numbers (what astropy does)"""
+    def __init__(self, v, unit):
+        self.v, self.unit = v, str(unit)
+        if self.unit not in UNIT_SCALE:
+            raise core.HarnessError(f"SQ: unit {self.unit!r} not modelled")
+
+    def to(self, unit):
+        a, b = UNIT_SCALE[self.unit], UNIT_SCALE.get(str(unit))
+        if b is None or a[0] != b[0]:
+            raise core.HarnessError(f"SQ: conversion {self.unit} -> {unit}")
+        k = a[1] / b[1]
+        return SQ(self.v if k == 1 else self.v * Sym(z3.Q(k.numerator, k.denominator)), unit)
+
+    value = property(lambda s: s.v)
+
+    def _k(self, o, f):
+        if isinstance(o, SQ):
+            raise core.HarnessError("SQ: quantity-by-quantity arithmetic not modelled")
+        return SQ(f(self.v, o), self.unit)
+
+    __mul__ = lambda s, o: s._k(o, lambda a, b: a * b)
+    __rmul__ = __mul__
+    __truediv__ = lambda s, o: s._k(o, lambda a, b: a / b)
+    __neg__ = lambda s: SQ(-s.v, s.unit)
+    __abs__ = lambda s: SQ(abs(s.v), s.unit)
+
+
+class UnitStubSym:
+    """setigen.unit_utils over SQ (real astropy Quantities and plain numbers go to the real module)"""
+    @staticmethod
+    def cast_value(value, unit):
+        if isinstance(value, SQ):
+            return value.to(unit)
+        if core.is_num(value) or isinstance(value, Sym):
+            return SQ(value, unit)
+        from setigen import unit_utils
+        return unit_utils.cast_value(value, unit)
+
+    @staticmethod
+    def get_value(value, unit=None):
+        if isinstance(value, SQ):
+            return value.to(unit).value if unit is not None else value.value
+        from setigen import unit_utils
+        return unit_utils.get_value(value, unit)
+
+
+def frame_patches(proxy=None, extra=None, units=False):
+    """patch set for setigen.frame and the funcs modules (units=True: unit handling over symbolic quantities SQ)"""
     proxy = proxy or npx.NPProxy()
     b = dict(shadow.DEFAULT_BUILTINS)
+    uu = dict(unit_utils=UnitStubSym) if units else {}
     specs = [
-        (F, dict(np=proxy, sigma_clip=sigma_clip_stub, **b)),
-        (f_profiles, dict(np=proxy, **b)),
-        (t_profiles, dict(np=proxy, **b)),
-        (paths, dict(np=proxy, **b)),
+        (F, dict(np=proxy, sigma_clip=sigma_clip_stub, **uu, **b)),
+        (f_profiles, dict(np=proxy, **uu, **b)),
+        (t_profiles, dict(np=proxy, **uu, **b)),
+        (paths, dict(np=proxy, **uu, **b)),
         (func_utils, dict(np=proxy, wofz=wofz_stub, **b)),
     ]
     if extra:
